@@ -121,15 +121,21 @@ def _alarm(signum, frame):
 
 
 @contextlib.contextmanager
-def watchdog(seconds):
-    """Abort the enclosed case with CaseTimeout after `seconds` of wall-clock time (main thread of the process)."""
-    old = signal.signal(signal.SIGALRM, _alarm)
-    signal.setitimer(signal.ITIMER_REAL, seconds)
+def watchdog(seconds, wall=None):
+    """Abort the enclosed case with CaseTimeout after `seconds` of CPU time of this process (ITIMER_PROF: a loaded
+    machine must not turn a slow case into a "did not terminate" verdict) or after `wall` seconds of wall-clock time
+    (default 20 x seconds + 60: the backstop for a case that blocks without using CPU).  Main thread only."""
+    old_a = signal.signal(signal.SIGALRM, _alarm)
+    old_p = signal.signal(signal.SIGPROF, _alarm)
+    signal.setitimer(signal.ITIMER_REAL, wall if wall is not None else 20 * seconds + 60)
+    signal.setitimer(signal.ITIMER_PROF, seconds)
     try:
         yield
     finally:
+        signal.setitimer(signal.ITIMER_PROF, 0)
         signal.setitimer(signal.ITIMER_REAL, 0)
-        signal.signal(signal.SIGALRM, old)
+        signal.signal(signal.SIGPROF, old_p)
+        signal.signal(signal.SIGALRM, old_a)
 
 
 def _chunks(items, n):
@@ -156,7 +162,7 @@ def _pin_init(counter, cores):
         pass
 
 
-def pmap(fn, items, cfg, chunk=None, deadline_s=3600, pin=True, inline_below=0):
+def pmap(fn, items, cfg, chunk=None, deadline_s=3600, pin=False, inline_below=0):
     """Apply fn(list_of_items) -> partial_result over all items on cfg.jobs forked workers; yields partial results.
 
     The *set* of items is fixed by the caller; cfg.seed only permutes the order in which chunks are handed out.
@@ -181,7 +187,9 @@ def pmap(fn, items, cfg, chunk=None, deadline_s=3600, pin=True, inline_below=0):
     gc.freeze()          # keep the collector of every forked worker off the inherited heap (copy-on-write storms)
     ctx = multiprocessing.get_context('fork')
     kw = {}
-    if pin and hasattr(os, 'sched_getaffinity'):
+    # Pinning helps thread hand-offs (E2) on an idle machine only; on a loaded one pinned workers of concurrent checks pile
+    # up on the same cores and starve, so it is skipped then.
+    if pin and hasattr(os, 'sched_getaffinity') and os.getloadavg()[0] < 0.4 * (os.cpu_count() or 1):
         kw = {'initializer': _pin_init, 'initargs': (ctx.Value('i', 0), sorted(os.sched_getaffinity(0)))}
     with cf.ProcessPoolExecutor(max_workers=min(jobs, len(chunks)), mp_context=ctx, **kw) as ex:
         futs = [ex.submit(_run_chunk, c) for c in chunks]
@@ -195,7 +203,7 @@ def pmap(fn, items, cfg, chunk=None, deadline_s=3600, pin=True, inline_below=0):
 
 
 def merge_counts(total, part):
-    """Merge a partial result dict into total: ints/floats add, sets union, lists extend (capped at 2000), dicts recurse."""
+    """Merge a partial result dict into total: ints/floats add, sets union, lists extend (only `samples` is capped, at 2000), dicts recurse."""
     for k, v in part.items():
         if isinstance(v, bool):
             total[k] = total.get(k, False) or v
@@ -205,7 +213,7 @@ def merge_counts(total, part):
             total.setdefault(k, set()).update(v)
         elif isinstance(v, list):
             cur = total.setdefault(k, [])
-            if k == 'violations':           # never capped: which ones survive a cap would depend on completion order
+            if k != 'samples':              # never capped: which ones survive a cap would depend on completion order
                 cur.extend(v)
             elif len(cur) < 2000:
                 cur.extend(v[:2000 - len(cur)])
